@@ -107,7 +107,7 @@ if sys.argv[1] == "--bounded":
 doc = json.load(open(sys.argv[1]))
 w = doc.get("witness") or {}
 edges = [tuple(e) for e in (w.get("edges") or [])]
-bad = check_graph(4, edges) if w.get("op") in ("bfs", "ring") else []
+bad = check_graph(max([4] + [max(e) + 1 for e in edges]), edges) if w.get("op") in ("bfs", "ring") else []
 if w.get("op") not in ("bfs", "ring"):
     for edges in all_graphs(4):
         bad += check_graph(4, edges)
